@@ -61,11 +61,15 @@ func cleanupScratch() {
 }
 
 func runSolver(s Solver, script string, tag string, timeout int) SolveResult {
+	return runSolverCtx(context.Background(), s, script, tag, timeout)
+}
+
+func runSolverCtx(parent context.Context, s Solver, script string, tag string, timeout int) SolveResult {
 	file := filepath.Join(scratch(), fmt.Sprintf("%s.%s.smt2", tag, s.Name))
 	if err := os.WriteFile(file, []byte(script), 0o644); err != nil {
 		return SolveResult{Status: "error", Solver: s.Name, Output: err.Error()}
 	}
-	ctx, cancel := context.WithTimeout(context.Background(), time.Duration(timeout+5)*time.Second)
+	ctx, cancel := context.WithTimeout(parent, time.Duration(timeout+5)*time.Second)
 	defer cancel()
 	args := s.Cmd(file, timeout)
 	t0 := time.Now()
@@ -80,6 +84,8 @@ func runSolver(s Solver, script string, tag string, timeout int) SolveResult {
 		st = "unsat"
 	case first == "sat":
 		st = "sat"
+	case parent.Err() != nil:
+		st = "cancelled"
 	case strings.Contains(first, "timeout") || ctx.Err() != nil:
 		st = "timeout"
 	case strings.HasPrefix(first, "(error") || strings.Contains(text, "(error"):
@@ -137,6 +143,44 @@ func literalAxioms(asserts []*Term) []*Term {
 	return out
 }
 
+func stripForall(pc *Term) *Term {
+	if pc.Op == "forall" {
+		return True
+	}
+	if pc.Op != "and" {
+		return pc
+	}
+	var keep []*Term
+	for _, a := range pc.Args {
+		if a.Op == "forall" {
+			continue
+		}
+		keep = append(keep, a)
+	}
+	return And(keep...)
+}
+
+// queryLite is the query without the quantified assumptions of the path conditions (a weaker
+// assumption set: unsat here implies unsat of the full query).
+func (ob *Obligation) queryLite() []*Term {
+	var alts []*Term
+	changed := false
+	for _, c := range ob.Cases {
+		pc := stripForall(c.PC)
+		if pc != c.PC {
+			changed = true
+		}
+		alts = append(alts, And(pc, Not(c.Goal)))
+	}
+	if !changed || ob.Cover {
+		return nil
+	}
+	as := []*Term{Or(alts...)}
+	as = append(as, namedDefs(as)...)
+	as = append(as, literalAxioms(as)...)
+	return as
+}
+
 // query builds the assertion set of an obligation: OR over cases of (PC and not Goal).
 func (ob *Obligation) query() []*Term {
 	var alts []*Term
@@ -149,6 +193,7 @@ func (ob *Obligation) query() []*Term {
 	}
 	q := Or(alts...)
 	as := []*Term{q}
+	as = append(as, namedDefs(as)...)
 	as = append(as, literalAxioms(as)...)
 	return as
 }
@@ -175,37 +220,73 @@ func discharge(ob *Obligation, tag string, timeout int, thorough bool, values []
 		return d
 	}
 	var tried []string
-	run := func(s Solver, t int) SolveResult {
-		script := Script(as, ScriptOpts{Cvc5: s.Cvc5, GetValues: values})
-		r := runSolver(s, script, tag, t)
-		tried = append(tried, fmt.Sprintf("%s:%s:%.2fs", s.Name, r.Status, r.Seconds))
-		return r
-	}
-	r := run(solvers[0], timeout)
-	if r.Status != "unsat" && r.Status != "sat" {
-		// race the others
-		ch := make(chan SolveResult, 2)
-		for _, s := range solvers[1:] {
-			s := s
-			go func() {
-				script := Script(as, ScriptOpts{Cvc5: s.Cvc5, GetValues: values})
-				ch <- runSolver(s, script, tag, timeout)
-			}()
+	if lite := ob.queryLite(); lite != nil {
+		t := 2
+		if timeout < t {
+			t = timeout
 		}
-		for i := 0; i < 2; i++ {
-			r2 := <-ch
-			tried = append(tried, fmt.Sprintf("%s:%s:%.2fs", r2.Solver, r2.Status, r2.Seconds))
-			if (r2.Status == "unsat" || r2.Status == "sat") && !(r.Status == "unsat" || r.Status == "sat") {
-				r = r2
+		r := runSolver(solvers[0], Script(lite, ScriptOpts{}), tag+".lite", t)
+		tried = append(tried, fmt.Sprintf("z3-new(lite):%s:%.2fs", r.Status, r.Seconds))
+		if r.Status == "unsat" {
+			r.Solver = "z3-new(lite)"
+			r.Tried = tried
+			d.Res = r
+			return d
+		}
+	}
+	// race the portfolio; first conclusive answer wins, the others are cancelled
+	ctx, cancel := context.WithCancel(context.Background())
+	ch := make(chan SolveResult, len(solvers))
+	for _, sv := range solvers {
+		sv := sv
+		go func() {
+			script := Script(as, ScriptOpts{Cvc5: sv.Cvc5, GetValues: values})
+			ch <- runSolverCtx(ctx, sv, script, tag, timeout)
+		}()
+	}
+	var r SolveResult
+	got := map[string]string{}
+	for i := 0; i < len(solvers); i++ {
+		r2 := <-ch
+		tried = append(tried, fmt.Sprintf("%s:%s:%.2fs", r2.Solver, r2.Status, r2.Seconds))
+		got[r2.Solver] = r2.Status
+		conclusive := r2.Status == "unsat" || r2.Status == "sat"
+		if conclusive && !(r.Status == "unsat" || r.Status == "sat") {
+			r = r2
+			if !thorough {
+				break
+			}
+		} else if conclusive && r2.Status != r.Status {
+			r = SolveResult{Status: "error", Solver: "portfolio", Output: fmt.Sprintf("solver disagreement: %v", got)}
+			break
+		} else if conclusive && thorough {
+			r.Solver = r.Solver + "+" + r2.Solver
+		}
+		if r.Status == "" {
+			r = r2
+		}
+	}
+	cancel()
+	// fallback: decide each path of the obligation separately (smaller queries)
+	if r.Status != "unsat" && r.Status != "sat" && len(ob.Cases) > 1 && !ob.Cover && !ob.single {
+		allUnsat := true
+		var worst SolveResult
+		total := 0.0
+		for ci, c := range ob.Cases {
+			sub := &Obligation{Name: ob.Name, Kind: ob.Kind, Cases: []Case{c}, single: true}
+			dd := discharge(sub, fmt.Sprintf("%s.c%d", tag, ci), timeout, false, values)
+			total += dd.Res.Seconds
+			tried = append(tried, fmt.Sprintf("case%d[%s]", ci, strings.Join(dd.Res.Tried, " ")))
+			if dd.Res.Status != "unsat" {
+				allUnsat = false
+				worst = dd.Res
+				break
 			}
 		}
-	} else if thorough && r.Status == "unsat" {
-		// independent confirmation by a second solver family where it answers in time
-		r2 := run(solvers[2], timeout)
-		if r2.Status == "sat" {
-			r = SolveResult{Status: "error", Solver: "portfolio", Output: "solver disagreement: z3-new unsat, cvc5 sat"}
-		} else if r2.Status == "unsat" {
-			r.Solver = r.Solver + "+cvc5"
+		if allUnsat {
+			r = SolveResult{Status: "unsat", Solver: "per-path", Seconds: total}
+		} else if worst.Status == "sat" {
+			r = worst
 		}
 	}
 	r.Tried = tried
